@@ -5,6 +5,19 @@ import json, pathlib
 ALL = [f'C{i:02d}' for i in range(1, 20)]
 
 CHECKS = {
+ 'C05': dict(
+   technique='Coq proof (stable sort = sorted permutation; removal by number via python del semantics; clearance by the triangle inequality in any metric space) + differential of the list logic with recomputed GEOS blocks + shapely measurements',
+   text='Props/C05.v: the blocks are numbered by non-decreasing lowest y and are exactly those the geometry produced; the removal '
+        'list is used as a strictly decreasing set and, for numbers in range, deletes exactly the blocks with those numbers '
+        'keeping the order of the others; a block cut out farther than a from the waveguides and grown by rho stays farther '
+        'than a - rho (a = bridge/2 + waist + corner, rho = corner). Tie to /repo: layouts of 1-8 waveguides (straight, S-bent, '
+        'coupled, bridged, tilted, ending inside the column) with random column parameters (incl. corner radius 0, waveguides '
+        'grazing the rectangle, one-block and no-block layouts, U-trench columns) and removal lists (empty, subsets, duplicates, '
+        'out of range, negative); kept block identities and order are compared with the model, and shapely measures clearance '
+        '>= (bridge/2 + waist)(1-1%), containment in the grown rectangle, pairwise disjointness and coverage.',
+   note='Trusted: Coq kernel (Reals axioms for the clearance statement); GEOS buffer / difference / simplify as oracles; shapely '
+        'measurements and tolerances in harness/c05.py.',
+   design='5/C05'),
  'C07': dict(
    technique='Coq proof with the geometry as an arbitrary oracle (termination without error, order, containment under the inset law; erosion / dilation laws in a normed space) + differential with recorded GEOS answers + shapely monitors',
    text='Props/C07.v: for every polygon type and every answer of the inset / hatching oracles the modelled generator finishes '
